@@ -235,9 +235,21 @@ func main() {
 			file := writeQuery(qdir, o.Func+"__"+o.Name, o.BuildQuery(false, false))
 			lite := writeQuery(qdir, o.Func+"__"+o.Name+".lite", o.BuildQuery(false, true))
 			expectSat := o.MustFail || o.Cover
-			best, all := solve(lite, file, to, *tier == "thorough" && !expectSat, expectSat)
-			os.Remove(lite)
+			tmo := to
+			if expectSat && tmo > 3 {
+				tmo = 3
+			}
+			best, all := solve(lite, file, tmo, *tier == "thorough" && !expectSat, expectSat)
+			if !*dump && best.Status != "sat-lite" {
+				os.Remove(lite)
+			}
+			if best.Status == "sat-lite" {
+				file = lite
+			}
 			r := ObResult{Func: o.Func, Name: o.Name, Kind: o.Kind, Props: o.Props, Status: best.Status, Solver: best.Solver, Secs: best.Secs, Pos: o.Pos, MustFail: o.MustFail, Cover: o.Cover, File: file}
+			if best.Status == "sat-lite" {
+				r.File = lite
+			}
 			if *tier == "thorough" {
 				var ag []string
 				for _, x := range all {
